@@ -31,7 +31,7 @@ import (
 
 // Cell is one case descriptor.
 type Cell struct {
-	Kind      string `json:"kind"`      // real | argv
+	Kind      string `json:"kind"`      // real | argv | seq
 	Transport string `json:"transport"` // standard | system
 	Strict    bool   `json:"strict"`
 	KH        string `json:"known_hosts"` // has | other | empty | none
@@ -41,6 +41,9 @@ type Cell struct {
 	Cfg       bool   `json:"ssh_config"`  // argv cells: an ssh config file is configured
 	Rep       int    `json:"rep"`
 	ReadSize  int    `json:"read_size"`
+	// seq cells: states of ONE known-hosts path at consecutive strict opens in one process
+	Steps []string `json:"steps,omitempty"`
+	Reuse bool     `json:"reuse_transport,omitempty"` // one Transport object for all opens (else a fresh one per open)
 }
 
 type userRec struct {
@@ -674,6 +677,22 @@ func gen(tier string, seed int64) []mon.Case {
 			}
 		}
 	}
+	// the known-hosts file changes between opens (same path, one process)
+	for rep := 0; rep < reps; rep++ {
+		k := 0
+		for _, tr := range []string{"standard", "system"} {
+			for _, steps := range [][]string{{"has", "other", "has"}, {"has", "empty", "has"}, {"empty", "has", "empty"}, {"other", "has", "other"}} {
+				for _, reuse := range []bool{false, true} {
+					for srv := 0; srv < 2; srv++ {
+						c := Cell{Kind: "seq", Transport: tr, Strict: true, KH: "changing", Auth: "key", User: (k + rep) % 2, Srv: srv, Rep: rep,
+							ReadSize: 8192, Steps: steps, Reuse: reuse}
+						cs = append(cs, mon.MkCase(fmt.Sprintf("c14/r%d/seq%02d-%s.%s.reuse=%v", rep, k, tr, strings.Join(steps, ">"), reuse), c))
+						k++
+					}
+				}
+			}
+		}
+	}
 	return cs
 }
 
@@ -684,7 +703,9 @@ func init() {
 		Rule: "Full factorial {standard, system with the real ssh client} x {strict (default), WithAuthNoStrictKey} x known-hosts {has the server key, has another key, " +
 			"empty file, not given} x auth {password, key file, both} x 2 users x 2 server instances (ports) = 192 cells per repetition against in-process SSH servers with fresh " +
 			"ed25519 host keys, plus 192 stand-in cells (system transport started on a stand-in binary that dumps its argv/environment; x {no ssh config, ssh config file}). " +
-			"Non-trivial = strict host-key checking is on in the cell. Distinct = distinct descriptor.",
+			"Plus 32 sequences per repetition in which ONE known-hosts path changes its contents between three consecutive strict opens in one process " +
+			"(has>other>has, has>empty>has, empty>has>empty, other>has>other; both transports; fresh Transport object per open and one re-used object; transport level, key auth): " +
+			"every open must be decided by the file's contents at that moment. Non-trivial = strict host-key checking is on in the cell. Distinct = distinct descriptor.",
 		Assumptions: []string{
 			"the OpenSSH client found as `ssh` on PATH (OpenSSH_9.2p1 here) and loopback TCP work offline",
 			"no /etc/ssh/ssh_known_hosts, no ~/.ssh/known_hosts and no default identity (~/.ssh/id_*) of the invoking account exist; no agent (SSH_AUTH_SOCK unset); host keys are generated per worker so no pre-existing file can hold them",
@@ -706,6 +727,9 @@ func init() {
 		Run: func(mc mon.Case) mon.Result {
 			var c Cell
 			mc.Decode(&c)
+			if c.Kind == "seq" {
+				return runSeq(c)
+			}
 			if c.Kind == "argv" {
 				return runArgv(c)
 			}
